@@ -106,7 +106,27 @@ LinearTypingFails(e) ==
                 THEN Chk("X:LinearTypingOverhangs", r.up = t.up /\ r.down = t.down) ELSE {})
           \cup (IF r.valid /\ Len(r.qexc) >= 3 /\ r.qexc[3] # "" THEN {"X:LinearTargetRaises"} ELSE {})
 
+\* growth: a circular plasmid held in a plain SeqRecord (topology annotation "circular" or none).  Verdict, overhangs and
+\* placeholder are defined for it and must not depend on the origin; target extraction needs the rotation operator of
+\* CircularRecord and is not defined (remark).
+PlainTypingFails(e) ==
+  LET c == e.cls  w == e.seq  r == e.res  x == e.twin.res
+      t == Typing(c.toks, c.enz, c.role, w)
+      ovh(y) == Len(y.qexc) >= 2 /\ y.qexc[1] = "" /\ y.qexc[2] = ""
+      ph(y) == Len(y.qexc) >= 4 /\ y.qexc[4] = ""
+  IN Chk("C17:IsValidTotal", r.exc = "" /\ x.exc = "")
+     \cup (IF r.exc # "" \/ x.exc # "" \/ ~IsNucWord(w) THEN {}
+           ELSE Chk("X:PlainTypingVerdict", r.valid = t.ok)
+                \cup (IF r.valid /\ t.ok /\ ovh(r) THEN Chk("X:PlainTypingOverhangs", r.up = t.up /\ r.down = t.down) ELSE {})
+                \cup (IF r.valid /\ Len(r.qexc) >= 3 /\ r.qexc[3] # "" THEN {"X:PlainTargetRaises"} ELSE {})
+                \cup (IF UniqueStart(c.toks, w)
+                      THEN Chk("C02:RotInv", /\ r.valid = x.valid
+                                             /\ r.valid => /\ ovh(r) = ovh(x) /\ (ovh(r) => r.up = x.up /\ r.down = x.down)
+                                                            /\ ph(r) = ph(x) /\ (ph(r) => r.ph = x.ph))
+                      ELSE {"S:C02Precondition"}))
+
 Fails(e) == CASE e.ev = "Typing" -> TypingFails(e)
+              [] e.ev = "PlainTyping" -> PlainTypingFails(e)
               [] e.ev = "LinearTyping" -> LinearTypingFails(e)
               [] e.ev = "Characterize" -> CharacterizeFails(e)
               [] OTHER -> {"X:UnknownEvent"}
